@@ -79,6 +79,7 @@ structure Result where
   status : Option PStatus      -- `none` = the initial text "propagating with …"
   raised : Option Err
   killed : Bool                -- infretis sent SIGTERM to the program
+  terminated : Bool            -- `*_was_terminated`: `add_to_path` said stop (set even if no signal was needed)
   dead : Bool                  -- the program is known to have terminated (return code collected)
   multi : Bool                 -- some poll delivered ≥ 2 frames at once
   ticks : Nat                  -- synchronisation points consumed
@@ -92,16 +93,16 @@ deriving Repr, DecidableEq
 def inprocGo (c : Cfg) (sub : Nat) (micro : Nat → Frame) :
     Nat → Nat → Nat → List Entry → Bool → Option PStatus → Result
   | 0, _, _, es, succ, st =>
-    { es := es, success := succ, status := st, raised := none, killed := false, dead := true, multi := false, ticks := 0 }
+    { es := es, success := succ, status := st, raised := none, killed := false, terminated := false, dead := true, multi := false, ticks := 0 }
   | fuel + 1, i, stepNr, es, succ, st =>
     if i % sub = 0 then
       let f := micro i
       match record c es stepNr f.cid f.bid f.vel with
-      | none => { es := es, success := succ, status := st, raised := some .index, killed := false, dead := true,
+      | none => { es := es, success := succ, status := st, raised := some .index, killed := false, terminated := false, dead := true,
                   multi := false, ticks := 0 }
       | some (es', r) =>
         if r.stop then
-          { es := es', success := r.success, status := some r.status, raised := none, killed := false, dead := true,
+          { es := es', success := r.success, status := some r.status, raised := none, killed := false, terminated := false, dead := true,
             multi := false, ticks := 0 }
         else inprocGo c sub micro fuel (i + 1) (stepNr + 1) es' r.success (some r.status)
     else inprocGo c sub micro fuel (i + 1) stepNr es succ st
@@ -112,7 +113,7 @@ def inprocGo (c : Cfg) (sub : Nat) (micro : Nat → Frame) :
 def inproc (c : Cfg) (sub : Nat) (micro : Nat → Frame) (ase : Bool) : Result :=
   let n := if ase then sub * c.maxlen else sub * c.maxlen + 1
   if ase && n == 0 then
-    { es := [], success := false, status := none, raised := some .unbound, killed := false, dead := true,
+    { es := [], success := false, status := none, raised := some .unbound, killed := false, terminated := false, dead := true,
       multi := false, ticks := 0 }
   else inprocGo c sub micro n 0 0 [] false none
 
@@ -157,7 +158,7 @@ def XState.init : XState :=
     terminated := false, multi := false }
 
 def XState.result (s : XState) (raised : Option Err) : Result :=
-  { es := s.es, success := s.success, status := s.status, raised := raised, killed := s.killed, dead := s.dead,
+  { es := s.es, success := s.success, status := s.status, raised := raised, killed := s.killed, terminated := s.terminated, dead := s.dead,
     multi := s.multi, ticks := s.t }
 
 /-- `sleep(self.sleep)`: the world moves on -/
@@ -258,7 +259,7 @@ def endIter (sched : Sched) (s : XState) : XState :=
   let (s, alive) := poll sched s
   if !alive && s.it ≤ 1 then { s with it := s.it + 1 } else s
 
-/-- `while exe.poll() is None or iterations_after_stop <= 1:`; `inl` = raised inside the loop -/
+/-- `while exe.poll() is None or iterations_after_stop <= 1:`; second component = raised inside the loop -/
 def readerLoop (k : Kind) (c : Cfg) (sched : Sched) (frames : List Frame) : Nat → XState → XState × Option Err
   | 0, s => (s, some .fuel)
   | fuel + 1, s =>
@@ -307,14 +308,14 @@ def gmxRecord (c : Cfg) (es : List Entry) (idx : Nat) (f : Frame) : Option (List
 /-- `for i, data in enumerate(gro.get_gromacs_frames()):` over the frames the runner yields -/
 def gmxGo (c : Cfg) : List Frame → Nat → List Entry → Bool → Option PStatus → Result
   | [], _, es, succ, st =>
-    { es := es, success := succ, status := st, raised := none, killed := false, dead := true, multi := false, ticks := 0 }
+    { es := es, success := succ, status := st, raised := none, killed := false, terminated := false, dead := true, multi := false, ticks := 0 }
   | f :: rest, i, es, succ, st =>
     match gmxRecord c es i f with
-    | none => { es := es, success := succ, status := st, raised := some .index, killed := false, dead := true,
+    | none => { es := es, success := succ, status := st, raised := some .index, killed := false, terminated := false, dead := true,
                 multi := false, ticks := 0 }
     | some (es', r) =>
       if r.stop then
-        { es := es', success := r.success, status := some r.status, raised := none, killed := true, dead := true,
+        { es := es', success := r.success, status := some r.status, raised := none, killed := true, terminated := true, dead := true,
           multi := false, ticks := 0 }
       else gmxGo c rest (i + 1) es' r.success (some r.status)
 
